@@ -108,7 +108,21 @@ def liquids(subs):
 # --------------------------------------------------------------------------------------------------
 # selectors
 
+class SubSel:
+    """A slice of a slice as a recipe-program reference: `plate[sel][item]`, with the wells it must address."""
+    def __init__(self, sel, item, idx, shape):
+        self.sel, self.item, self.idx, self.shape = sel, item, list(idx), tuple(shape)
+
+    def apply(self, plate):
+        return annotate(plate[self.sel][self.item], self.idx, self.shape)
+
+    def __repr__(self):
+        return f'SubSel({self.sel!r}[{self.item!r}])'
+
+
 def sel_json(sel):
+    if isinstance(sel, SubSel):
+        return {'sub': [sel_json(sel.sel), repr(sel.item)]}
     if isinstance(sel, slice):
         return {'slice': [sel_json(sel.start), sel_json(sel.stop), sel.step]}
     if isinstance(sel, tuple):
@@ -211,7 +225,7 @@ def subslice(rng, plate, sel, idx, shape):
         item = slice(a, b)
         exp = idx[a:b]
         try:
-            return parent[item], exp, (len(exp),), f'{sel!r}[{a}:{b}]'
+            return annotate(parent[item], exp, (len(exp),)), exp, (len(exp),), f'{sel!r}[{a}:{b}]', item
         except Exception:
             return None
     h, w = shape
@@ -240,9 +254,17 @@ def subslice(rng, plate, sel, idx, shape):
     if not exp:
         return None
     try:
-        return parent[item], exp, tuple(sub.shape), f'{sel!r}[{item!r}]'
+        return annotate(parent[item], exp, tuple(sub.shape)), exp, tuple(sub.shape), f'{sel!r}[{item!r}]', item
     except Exception:
         return None
+
+
+def annotate(slicer, idx, shape):
+    """Harness-side note on a sub-sliced slicer object: the wells it is expected to address (from the numpy grid).
+    An instance attribute, so it follows the slicer through copy.deepcopy (Recipe.bake copies slicers); the library
+    never reads it and the fingerprints enumerate fields explicitly."""
+    slicer._pv_addr = (list(idx), tuple(shape))
+    return slicer
 
 
 def rect_selector(rng, plate, r0, r1, c0, c1):
@@ -403,7 +425,7 @@ class World:
         if self.rng.random() < p_sub and len(idx) > 1:
             r = subslice(self.rng, plate, sel, idx, shape)
             if r is not None:
-                sl, idx2, shape2, desc = r
+                sl, idx2, shape2, desc, _item = r
                 if len(M.addr_override) > 400:
                     M.addr_override.clear()
                 M.addr_override[id(sl)] = (idx2, shape2, sl)
